@@ -16,6 +16,7 @@ import (
 func init() {
 	core.Register(&core.Family{Name: "types", Exec: exec, Classify: classify})
 	core.Checks["C09"] = check
+	schema.C05Types = Repeatable
 }
 
 type qn struct {
@@ -105,6 +106,8 @@ type rtype struct {
 	Members []member `json:"members"`
 }
 type cas struct {
+	// Prop: "C05" when the case is replayed for reproducibility only (the same errors, the same type, in every run)
+	Prop string          `json:"prop"`
 	Prog prog            `json:"prog"`
 	Err  bool            `json:"err"`
 	Type json.RawMessage `json:"type"`
@@ -268,6 +271,9 @@ func exec1(kind byte, body []byte) *core.Verdict {
 		return &core.Verdict{Infra: "case: " + err.Error()}
 	}
 	v := &core.Verdict{OK: true, Class: classOf(&c), NT: len(c.Prog.Tds) >= 2}
+	if c.Prop == "C05" {
+		return repeatable(&c, v)
+	}
 	t := c.Prog.texts()
 	text := t["a"] + t["as"] + t["b"] + t["bs"] + t["y"]
 	fail := func(sig, f string, a ...any) *core.Verdict {
@@ -348,6 +354,48 @@ func exec1(kind byte, body []byte) *core.Verdict {
 		v.Sample = map[string]any{"yang": text, "expected_type": want}
 	}
 	return v
+}
+
+// repeatable: the program is loaded and processed several times on fresh sets, in two load orders: the list of error
+// texts and the resolved type of the leaf must come out the same every time (C05)
+func repeatable(c *cas, v *core.Verdict) *core.Verdict {
+	t := c.Prog.texts()
+	first := ""
+	for k := 0; k < 8; k++ {
+		order := []string{"a", "as", "b", "bs", "y"}
+		if k%2 == 1 {
+			order = []string{"y", "bs", "b", "as", "a"}
+		}
+		ms := yang.NewModules()
+		for _, n := range order {
+			if err := ms.Parse(t[n], n+".yang"); err != nil {
+				return &core.Verdict{Infra: "rendered skeleton does not parse: " + err.Error()}
+			}
+		}
+		var sb strings.Builder
+		for _, e := range ms.Process() {
+			sb.WriteString(e.Error() + "\n")
+		}
+		if l := find(yang.ToEntry(ms.Modules["a"]), c.Prog.Site); l != nil && l.Type != nil {
+			fmt.Fprintf(&sb, "type %s kind %s units %q default %q patterns %v\n", l.Type.Name, yang.TypeKindToName[l.Type.Kind], l.Type.Units, l.Type.Default, l.Type.Pattern)
+		}
+		v.N++
+		if k == 0 {
+			first = sb.String()
+		} else if sb.String() != first {
+			v.OK, v.Sig = false, "result-varies"
+			v.Detail = fmt.Sprintf("run %d gives\n%s\nthe first run gave\n%s\n%s", k+1, sb.String(), first, t["a"]+t["as"]+t["b"]+t["bs"])
+			return v
+		}
+	}
+	return v
+}
+
+// Repeatable is the part of C05 that runs over the typedef chain space (cycles, unknown bases: error lists).
+func Repeatable(r *core.Run) {
+	core.CaseSuffix = `,"prop":"C05"}`
+	defer func() { core.CaseSuffix = "" }()
+	r.DirectionA("types", core.TLCOpts{Module: "MCT_chain_quick", Cfg: "MCT_chain_quick.cfg", Workers: 12, Timeout: 0}, nil)
 }
 
 func check(r *core.Run) {
